@@ -236,6 +236,7 @@ class RpcMultiNode(RpcNode):
 
     def request(self, method: str, path: str, **kwargs) -> requests.Response:
         assert self._next_i < len(self.nodes)
-        res = self.nodes[self._next_i].request(method, path, **kwargs)
+        node = self.nodes[self._next_i]
+        # NOTE: advance before the request, so that a failing node does not stall the rotation
         self._next_i = (self._next_i + 1) % len(self.nodes)
-        return res
+        return node.request(method, path, **kwargs)
